@@ -322,6 +322,11 @@ func (n *Node) boot(st *sm.State) {
 		panic(fmt.Sprintf("sim: start: %v", err))
 	}
 	n.Ctl.WaitParked(1)
+	if n.Ctl.Ticker.Overflowed() {
+		// more timeouts were scheduled before the ticker was started than its request channel holds:
+		// the real node would sit in OnStart for ever (the harness's ticker never blocks)
+		panic(fmt.Sprintf("sim: node %d: start-up scheduled more timeouts than the ticker's request buffer holds before the ticker was started: the real node blocks in OnStart for ever", n.ID))
+	}
 	n.after()
 }
 
